@@ -491,6 +491,41 @@ fn permutations<T: Clone>(v: &[T]) -> Vec<Vec<T>> {
 
 pub fn f5() -> Fragment {
     let mut programs = Vec::new();
+    let mut extra: Vec<Program> = Vec::new();
+    // a parameter in every position of a function body whose kind only an application fixes;
+    // the function is applied once (before and after its declaration)
+    {
+        let o = obj(vec![prop("q", num())]);
+        let cases: Vec<(E, E, bool)> = vec![
+            // (body, argument, the application is the whole range)
+            (obj(vec![prop("total", num()), var("item")]), prop("it", str_()), false),
+            (obj(vec![E::Mark(Box::new(var("item")), false), prop("z", num())]), prop("it", str_()), false),
+            (arr(var("item")), str_(), false),
+            (op(Op::Any, vec![var("item"), num()]), str_(), false),
+            (op(Op::Join, vec![var("item"), o.clone()]), obj(vec![prop("r", str_())]), false),
+            (content(var("item")), num(), true),
+            (E::Content(vec![(Meta::Status, var("item"))], Some(Box::new(o.clone()))), status(201), true),
+            (E::Content(vec![(Meta::Headers, var("item"))], Some(Box::new(o.clone()))), obj(vec![prop("h", str_())]), true),
+            (E::Content(vec![(Meta::Media, var("item"))], Some(Box::new(o.clone()))), text("text/plain"), true),
+        ];
+        for (body, arg, whole) in cases {
+            let f = fun("page", &["item"], body);
+            let use_ = if whole { app("page", vec![arg]) } else { content(app("page", vec![arg])) };
+            extra.push(single(vec![f.clone(), get(use_.clone())]));
+            extra.push(single(vec![get(use_), f]));
+        }
+        // in a URI, in the parameters and as the range of a transfer
+        let f = fun("at", &["item"], E::Uri(vec![Seg::Lit("a".into()), Seg::Var(Box::new(var("item")))], None));
+        extra.push(single(vec![f, Stmt::Res(rel(app("at", vec![prop("id", num())]), vec![xfer(Method::Get, E::Content(vec![], None))]))]));
+        let f = fun("op", &["item"], xfer(Method::Get, var("item")));
+        extra.push(single(vec![f, Stmt::Res(rel(uri_lit(&["a"]), vec![app("op", vec![content(num())])]))]));
+        let f = fun(
+            "op",
+            &["item"],
+            E::Xfer { methods: vec![Method::Get], params: Some(vec![var("item")]), domain: None, range: Box::new(E::Content(vec![], None)) },
+        );
+        extra.push(single(vec![f, Stmt::Res(rel(uri_lit(&["a"]), vec![app("op", vec![prop("q", str_())])]))]));
+    }
     let mut all_orders = |stmts: Vec<Stmt>| {
         if stmts.len() <= 4 {
             for p in permutations(&stmts) {
@@ -609,6 +644,7 @@ pub fn f5() -> Fragment {
         fun("f", &["x"], E::Rec("x".into(), Box::new(obj(vec![prop("n", arr(var("x")))])))),
         get(content(obj(vec![prop("m", app("f", vec![str_()])), prop("k", var("x"))]))),
     ]);
+    programs.extend(extra);
     Fragment {
         name: "F5 declarations, functions, scoping",
         well_kinded: true,
@@ -1118,6 +1154,82 @@ pub fn f8() -> Fragment {
                 ],
             },
             Module { name: "lib/types.oal".into(), stmts: vec![let_("item", str_())] },
+        ],
+    });
+    // the same file name in two directories: a relative spelling denotes the file next to the
+    // importing module, whatever the main module imports under that spelling
+    for (inner_path, inner_is_sibling) in [
+        ("n.oal", true),
+        ("./n.oal", true),
+        ("../sub/n.oal", true),
+        ("../n.oal", false),
+        ("./../n.oal", false),
+    ] {
+        for inner_q in [Some("n".to_owned()), None] {
+            for main_path in ["sub/m.oal", "./sub/m.oal"] {
+                for main_n in 0..3 {
+                    let mut main = vec![Stmt::Use(main_path.into(), Some("s".into()))];
+                    match main_n {
+                        1 => main.insert(0, Stmt::Use("n.oal".into(), Some("n".into()))),
+                        2 => main.push(Stmt::Use("n.oal".into(), Some("n".into()))),
+                        _ => {}
+                    }
+                    let mut members = vec![prop("nested", qvar("s", "y")), prop("plain", qvar("s", "v"))];
+                    if main_n > 0 {
+                        members.push(prop("top", qvar("n", "x")));
+                    }
+                    main.push(get(content(obj(members))));
+                    let use_ = |x: &str| match &inner_q {
+                        Some(q) => qvar(q, x),
+                        None => var(x),
+                    };
+                    let _ = inner_is_sibling;
+                    programs.push(Program {
+                        modules: vec![
+                            Module { name: "main.oal".into(), stmts: main },
+                            Module {
+                                name: "sub/m.oal".into(),
+                                stmts: vec![
+                                    Stmt::Use(inner_path.into(), inner_q.clone()),
+                                    let_("y", obj(vec![prop("x", use_("x"))])),
+                                    let_("v", use_("w")),
+                                ],
+                            },
+                            Module { name: "n.oal".into(), stmts: vec![let_("x", num()), let_("w", E::Prim(Prim::Bool))] },
+                            Module { name: "sub/n.oal".into(), stmts: vec![let_("x", str_()), let_("w", E::Prim(Prim::Int))] },
+                        ],
+                    });
+                }
+            }
+        }
+    }
+    // two directories whose modules use the same relative spelling for different files, and a
+    // module two levels down that reaches both levels above it
+    programs.push(Program {
+        modules: vec![
+            Module {
+                name: "main.oal".into(),
+                stmts: vec![
+                    Stmt::Use("a/api.oal".into(), Some("a".into())),
+                    Stmt::Use("b/api.oal".into(), Some("b".into())),
+                    Stmt::Use("a/deep/k.oal".into(), Some("k".into())),
+                    get(content(obj(vec![prop("a", qvar("a", "v")), prop("b", qvar("b", "v")), prop("k", qvar("k", "v"))]))),
+                ],
+            },
+            Module { name: "a/api.oal".into(), stmts: vec![Stmt::Use("types.oal".into(), Some("t".into())), let_("v", obj(vec![prop("t", qvar("t", "x"))]))] },
+            Module { name: "b/api.oal".into(), stmts: vec![Stmt::Use("types.oal".into(), Some("t".into())), let_("v", obj(vec![prop("t", qvar("t", "x"))]))] },
+            Module { name: "a/types.oal".into(), stmts: vec![let_("x", num())] },
+            Module { name: "b/types.oal".into(), stmts: vec![let_("x", str_())] },
+            Module { name: "types.oal".into(), stmts: vec![let_("x", E::Prim(Prim::Bool))] },
+            Module {
+                name: "a/deep/k.oal".into(),
+                stmts: vec![
+                    Stmt::Use("../types.oal".into(), Some("one".into())),
+                    Stmt::Use("../../types.oal".into(), Some("two".into())),
+                    Stmt::Use("../../b/types.oal".into(), Some("other".into())),
+                    let_("v", obj(vec![prop("one", qvar("one", "x")), prop("two", qvar("two", "x")), prop("other", qvar("other", "x"))])),
+                ],
+            },
         ],
     });
     // relative spellings of the same module
